@@ -329,8 +329,10 @@ pub fn run_torn_case(res: &mut RunResult, case_id: i64, label: &str, base: Base,
                     run.viol(format!("EventLog::append of a {total}-byte frame line failed / panicked on a log with an unterminated tail of {} byte(s)", unterminated(&before)), "panic");
                 } else if after.len() < before.len() || after[..before.len()] != before[..] {
                     run.viol(format!("EventLog::append: the previous content ({} bytes, unterminated tail {}) is no longer a prefix ({} bytes now)", before.len(), unterminated(&before), after.len()), "log_prefix_changed");
-                } else if after[before.len()..] != want[..] {
-                    run.viol(format!("EventLog::append on a log with an unterminated tail of {} byte(s) added {} bytes that are not exactly the frame and its newline", unterminated(&before), after.len() - before.len()), "partial_frame_appended");
+                } else if !after[before.len()..].ends_with(&want) {
+                    // (what the code does today is stricter - exactly the frame line, glued onto the tail - and that is the
+                    // model's business: Model/LogFile.v FAppend; the property needs the frame to have reached the log whole)
+                    run.viol(format!("EventLog::append on a log with an unterminated tail of {} byte(s) added {} bytes that do not end with the frame and its newline", unterminated(&before), after.len() - before.len()), "partial_frame_appended");
                 }
                 ops.push(format!("LAppend {}", want.len()));
             }
